@@ -80,7 +80,7 @@ def render(case, d, seed):
     def kw(e):
         k = {"name": e}
         if fails == e:
-            k["fail_after"] = 3
+            k["fail_after"] = 3 + (seed % 2)  # odd: an Exception, even: a BaseException that is none
         if falsy.get(e):
             k["falsy"] = True
         return k
